@@ -954,6 +954,15 @@ impl ReCompiler {
             let ret = Operation::from(Atom::new(self.pattern.clone()));
             let end_node = Operation::from(EndProgram);
             let seq = Self::make_sequence(ret, end_node);
+            #[cfg(regexml_verif)]
+            if crate::verif_hooks::optimizations_disabled() {
+                return Ok(ReProgram::new_unoptimized(
+                    self.pattern,
+                    seq,
+                    Some(self.capturing_open_paren_count),
+                    self.re_flags.clone(),
+                ));
+            }
             Ok(ReProgram::new(
                 self.pattern,
                 seq,
@@ -1008,6 +1017,19 @@ impl ReCompiler {
                     return Err(Error::syntax("Unmatched close paren"));
                 }
                 return Err(Error::syntax("Unexpected input remains"));
+            }
+            #[cfg(regexml_verif)]
+            if crate::verif_hooks::optimizations_disabled() {
+                let mut program = ReProgram::new_unoptimized(
+                    self.pattern,
+                    operation,
+                    Some(self.capturing_open_paren_count),
+                    self.re_flags.clone(),
+                );
+                if self.has_back_references {
+                    program.optimization_flags |= OPT_HASBACKREFS;
+                }
+                return Ok(program);
             }
             let operation = operation.optimize(&self.re_flags);
 
